@@ -87,10 +87,10 @@ Proof. intros L. destruct b as [|[c|] rest]; cbn [Taproot.ins]; [reflexivity| |]
 Lemma place_length n d b : (length b <= d)%nat -> length (place n d b) = S d.
 Proof. intros L. unfold place. cbn [length]. rewrite app_length, repeat_length. lia. Qed.
 Lemma ins_restart a bnode d b : (length b <= S d)%nat ->
-  ins bnode (S d) (place a (S d) b) = match combine bnode a with Ok m => ins m d b | Err e => Err e end.
+  ins bnode (S d) (place a (S d) b) = match combine a bnode with Ok m => ins m d b | Err e => Err e end.
 Proof. intros L. unfold place. cbn [Taproot.ins].
   assert (E : length (Some a :: repeat None (S d - length b) ++ b) = (S d + 1)%nat) by (cbn [length]; rewrite app_length, repeat_length; lia).
-  rewrite E, Nat.eqb_refl. destruct (combine bnode a) as [m|e]; [|reflexivity].
+  rewrite E, Nat.eqb_refl. destruct (combine a bnode) as [m|e]; [|reflexivity].
   destruct (Nat.eq_dec (length b) (S d)) as [Eq|Ne].
   - rewrite Eq, Nat.sub_diag. reflexivity.
   - assert (Lb : (length b <= d)%nat) by lia. rewrite (ins_short _ _ _ Lb).
@@ -126,14 +126,14 @@ Proof. induction t as [s v|h|a IHa c IHc]; intros d b L Hh; cbn [dfs Taproot.nod
 Corollary builder_sound t : (height t <= MAXD)%nat -> run (dfs t 0) [] = Ok [Some (node_of t)].
 Proof. intros Hh. rewrite run_subtree by (cbn [length Nat.add]; lia). rewrite insert_nat by (cbn [length]; lia). reflexivity. Qed.
 
-(* what the finished node holds: the sorted-pair merkle root, and the leaves with their sibling paths — in REVERSE
-   depth-first order, because the code calls NodeInfo::combine(node, child) with the later subtree first (F9) *)
+(* what the finished node holds: the sorted-pair merkle root, and the leaves with their sibling paths in depth-first (insertion)
+   order — NodeInfo::combine(child, node) since fix aee9a45 (before it the order was reversed, finding F9) *)
 Lemma node_of_hash t : n_hash (node_of t) = root t.
 Proof. induction t as [s v|h|a IHa b IHb]; cbn [Taproot.node_of Taproot.root Taproot.combine_tot new_leaf new_hidden n_hash]; try reflexivity.
-  rewrite IHa, IHb. f_equal. apply sortpair_comm. Qed.
-Lemma node_of_leaves t : n_leaves (node_of t) = rev (leaf_paths t).
+  rewrite IHa, IHb. reflexivity. Qed.
+Lemma node_of_leaves t : n_leaves (node_of t) = leaf_paths t.
 Proof. induction t as [s v|h|a IHa b IHb]; cbn [Taproot.node_of Taproot.leaf_paths Taproot.combine_tot new_leaf new_hidden n_leaves]; try reflexivity.
-  rewrite rev_app_distr, <- !map_rev, <- IHa, <- IHb, !node_of_hash. reflexivity. Qed.
+  rewrite <- IHa, <- IHb, !node_of_hash. reflexivity. Qed.
 
 (* every leaf's path hashes up to the root *)
 Lemma fold_snoc {X Y} (f : X -> Y -> X) l y x : fold_left f (l ++ [y]) x = f (fold_left f l x) y.
@@ -147,7 +147,7 @@ Proof. induction t as [s v|h|a IHa b IHb]; cbn [Taproot.leaf_paths Taproot.root]
       rewrite fold_snoc; unfold merkle_step at 1; [rewrite (IHa _ Hl')|rewrite (IHb _ Hl'), sortpair_comm]; reflexivity. Qed.
 Lemma leaf_path_depth t : forall l, In l (leaf_paths t) -> (length (l_branch l) <= height t)%nat.
 Proof. intros l Hl. pose proof (node_of_short t) as S. unfold short in S. rewrite Forall_forall in S. apply S.
-  rewrite node_of_leaves. now apply in_rev in Hl. Qed.
+  rewrite node_of_leaves. exact Hl. Qed.
 End BUILD.
 
 (* ------------------------------------------------------------------ the script map *)
@@ -315,8 +315,7 @@ Lemma build_inv t P i : (height t <= MAXD)%nat -> build (dfs t 0) P = Val i ->
   (forall k v, map_has (si_map i) k v <-> exists l, In l (leaf_paths t) /\ k = (l_script l, l_ver l) /\ v = l_branch l).
 Proof. intros Hh. unfold Taproot.build. rewrite builder_sound by assumption. intros F.
   apply finalize_inv in F as (n & E & I1 & I2 & I3 & I4 & I5). inversion E; subst n. rewrite node_of_hash in *.
-  split; [auto|split; [auto|split; [auto|split; [auto|]]]]. rewrite I5. intros k0 v0. rewrite build_map_has, node_of_leaves. split; intros [l [Hl R]]; exists l; (split; [|exact R]).
-  - now apply in_rev. - now apply -> in_rev. Qed.
+  split; [auto|split; [auto|split; [auto|split; [auto|]]]]. rewrite I5. intros k0 v0. rewrite build_map_has, node_of_leaves. reflexivity. Qed.
 
 Section WITH_SPEC.
 Hypothesis tweak_spec : forall P Q par t, tweak_check P Q par t = true <-> tweak P t = Some (Q, par).
@@ -519,9 +518,9 @@ Proof. induction ts as [|o r IH]; intros t d b' F L Hh E.
     + assert (Ed : length r = d) by lia. destruct o as [tc|]; cbn [to_br map option_map Taproot.ins length] in E; rewrite map_length in E;
         (destruct (Nat.eqb_spec (S (length r)) (d + 1)) as [_|Bad]; [|lia]).
       * destruct d as [|d']; [discriminate|].
-        rewrite (combine_ok Hleaf Hbranch _ _ (Nat.max (height t) (height tc))) in E;
+        rewrite (combine_ok Hleaf Hbranch _ _ (Nat.max (height tc) (height t))) in E;
           [|lia|eapply short_mono; [|apply node_of_short]; lia|eapply short_mono; [|apply node_of_short]; lia].
-        change (combine_tot Hbranch (node_of t) (node_of tc)) with (node_of (Node tc t)) in E.
+        change (combine_tot Hbranch (node_of tc) (node_of t)) with (node_of (Node tc t)) in E.
         destruct (IH (Node tc t) d' b' Fr ltac:(lia) ltac:(cbn [height]; lia) E) as (ts' & -> & F' & Fl & Hd).
         exists ts'. split; [reflexivity|]. split; [assumption|]. split; [|assumption].
         rewrite Fl. cbn [flat dfs]. rewrite Ed, <- app_assoc. reflexivity.
